@@ -136,6 +136,7 @@ type Tr struct {
 	lockMode  bool
 	inlineBudget int
 	valOKText string
+	piTerm    Term
 	coverResult string
 	typeInvMode bool
 	callHints []Term
@@ -462,9 +463,34 @@ func (a *Act) mayPanic(st *State, kind string, pos token.Pos, ok Term, pval Term
 		}
 	}
 	if a.tr.panicMode == "obligation" {
-		a.oblige(st, "nopanic/"+kind, pos, "true", ok, nil)
+		rc := a.tr.rootAct.contract
+		switch {
+		case rc != nil && rc.panics == "explicit" && kind == "explicit" && a.parent == nil:
+			// intended registration-time validation panics
+		case rc != nil && rc.panics == "iff" && a.parent == nil:
+			a.oblige(st, "panic-iff/"+kind, pos, "true", Or(ok, a.tr.panicsIffTerm()), nil)
+		default:
+			a.oblige(st, "nopanic/"+kind, pos, "true", ok, nil)
+		}
 	}
 	st.reach = a.tr.define("reach", "Bool", And(st.reach, ok))
+}
+
+// panicsIffTerm: the root contract's `panics iff` condition evaluated at entry.
+func (tr *Tr) panicsIffTerm() Term {
+	if tr.piTerm != "" {
+		return tr.piTerm
+	}
+	a := tr.rootAct
+	rc := a.contract
+	var errs []string
+	e := &specEnv{a: a, tr: tr, pkg: rc.pkg, st: a.entryState, old: a.entryState, errs: &errs,
+		vars: a.bindContract(rc, a.entryState, a.args, nil, tr.root.Signature, true)}
+	tr.piTerm = tr.define("panics_iff", "Bool", e.evalBool(rc.panicsIff.expr))
+	for _, m := range errs {
+		tr.specErr(rc.name + " (panics iff): " + m)
+	}
+	return tr.piTerm
 }
 
 func (tr *Tr) runtimeErrVal() Term {
